@@ -23,8 +23,8 @@ RULES = {
            "distinct (kind, input variants, output variants, registry-call key pattern) of traced transactions",
 }
 
-PROPERTIES_WIP = ['C06', 'C07']
-MANIFEST_WIP = {
+PROPERTIES = ['C06', 'C07']
+MANIFEST = {
     'C06': dict(category='exploration',
                 technique='TLA+ spec Serde: exact model of the hand-written Policies serde (legacy 4-tuple vs compact sequence chosen by the '
                           'bit pattern) with JSON/postcard/bincode encodings derived from the format definitions, exact model of Bytes, and '
@@ -104,6 +104,17 @@ def _compress_class(dom, e):
     return "/".join(parts)
 
 
+def _selftest(chk, dom, spec, trace, mutate):
+    """Binding self-test. When the run already found violations the corrupted segment may be one of the rejected ones, so a
+    failed self-test must not turn the verdict into a tool error (exit 1 has priority); it is recorded instead."""
+    try:
+        tc.selftest_corrupt(chk, dom, spec, trace, mutate)
+    except ToolError as e:
+        if not chk.violations:
+            raise
+        chk.set("binding_selftest", dict(passed=False, skipped="trace already rejected by violations", detail=str(e)[:300]))
+
+
 def _c06(chk, tier):
     thorough = tier == "thorough"
     vlib.harness_build(BIN)
@@ -151,7 +162,7 @@ def _c06(chk, tier):
             [x for x in events if x.get("ev") == "Upgrade"][:1]:
         chk.sample(tc._short(e, 500))
     # ---- binding self-test ----
-    tc.selftest_corrupt(chk, "serde", "tx/Serde_Trace.tla", tr, tc.corrupt_hex_field(["postcard", "calc", "built"]))
+    _selftest(chk, "serde", "tx/Serde_Trace.tla", tr, tc.corrupt_hex_field(["postcard", "calc", "built"]))
     keys = set()
     for e in events:
         ev = e.get("ev")
@@ -225,7 +236,7 @@ def _c07(chk, tier):
     for e in [x for x in events if x.get("ev") == "Tx"][3:4]:
         chk.sample(dict(kind=e["kind"], calls=e["calls"], reg=e["reg"], id_orig=e["id_orig"], id_dec=e["id_dec"],
                         outputs_orig=e["orig"]["outputs"][:2], outputs_dec=e["dec"]["outputs"][:2]))
-    tc.selftest_corrupt(chk, "compress", "tx/Compression_Trace.tla", tr, tc.corrupt_hex_field(["id_dec"]))
+    _selftest(chk, "compress", "tx/Compression_Trace.tla", tr, tc.corrupt_hex_field(["id_dec"]))
     keys = set()
     wrapped = evicted = 0
     for e in events + revents:
